@@ -1,5 +1,5 @@
 (* The in-degree invariant through the compound-type instructions (the hand-adjusted sites of vm.go). *)
-From NG Require Import VM.Model VM.LimitsData VM.Reach VM.RefsInv VM.RefsMoves VM.RefsData VM.RefsOps.
+From NG Require Import VM.Model VM.LimitsData VM.Reach VM.RefsInv VM.RefsMoves VM.RefsData VM.RefsOps VM.RefsStale.
 Open Scope Z_scope.
 
 (* ---------- more primitives ---------- *)
@@ -425,30 +425,37 @@ Proof. intros [U H]. unfold op_haskey. tI. Qed.
 Lemma throw_bytes_I msg d U : dI Ex [] U d -> res_I Ex (throw_bytes msg d).
 Proof. intros H. unfold throw_bytes. cbn [res_I]. split; [eexists; eassumption|exact I]. Qed.
 
+Lemma pick_seq_I key d2 U l : dI Ex [] U d2 ->
+  res_I Ex (do i <- try_int key; do i <- to_i32 i;
+            do (_, its) <- get_seq (d_heap d2) l;
+            if (i <? 0) || (zlen its <=? i) then throw_bytes (msg_out_of_range i) d2
+            else do it <- nth_error its (Z.to_nat i); ok (push it d2)).
+Proof.
+  intros H2. destruct (try_int key); [|exact I]. destruct (to_i32 z); [|exact I].
+  destruct (get_seq (d_heap d2) l) as [[rc its]|] eqn:Gs; [|exact I]. apply get_seq_hget in Gs.
+  case_if; [eapply throw_bytes_I; eassumption|].
+  destruct (nth_error its (Z.to_nat z0)) as [it|] eqn:N; [|exact I]. unfold ok. cbn [res_I].
+  eapply dI0_intro. apply dI_push_v; [eassumption|]. eapply dI_child_valid; [exact H2|exact Gs|].
+  cbn [cell_children]. eapply nth_error_In; eauto.
+Qed.
+Lemma pick_bytes_I key obj d2 U : dI Ex [] U d2 ->
+  res_I Ex (do i <- try_int key; do i <- to_i32 i; do bs <- try_bytes (d_heap d2) obj;
+            if (i <? 0) || (zlen bs <=? i) then throw_bytes (msg_out_of_range i) d2
+            else do b <- nth_error bs (Z.to_nat i); okd (push_int b d2)).
+Proof.
+  intros H2. destruct (try_int key); [|exact I]. destruct (to_i32 z); [|exact I]. destruct (try_bytes (d_heap d2) obj); [|exact I].
+  case_if; [eapply throw_bytes_I; eassumption|]. destruct (nth_error l (Z.to_nat z0)); [|exact I].
+  unfold okd. destruct (push_int z1 d2) as [d3|] eqn:Pi; [|exact I]. unfold ok. cbn [res_I].
+  eapply dI0_intro. eapply dI_push_int; eauto.
+Qed.
+
 Lemma op_pickitem_I d : dI0 Ex d -> res_I Ex (op_pickitem d).
 Proof.
   intros [U H]. unfold op_pickitem.
   destruct (pop d) as [[key d1]|] eqn:P1; [|exact I]. pose proof (dI_pop _ _ _ _ _ H P1) as H1.
   destruct (negb (valid_key key)); [exact I|].
   destruct (pop d1) as [[obj d2]|] eqn:P2; [|exact I]. pose proof (dI_pop _ _ _ _ _ H1 P2) as H2.
-  assert (Seq : forall l, res_I Ex (do i <- try_int key; do i <- to_i32 i;
-              do (_, its) <- get_seq (d_heap d2) l;
-              if (i <? 0) || (zlen its <=? i) then throw_bytes (msg_out_of_range i) d2
-              else do it <- nth_error its (Z.to_nat i); ok (push it d2))).
-  { intros l. destruct (try_int key); [|exact I]. destruct (to_i32 z); [|exact I].
-    destruct (get_seq (d_heap d2) l) as [[rc its]|] eqn:Gs; [|exact I]. apply get_seq_hget in Gs.
-    case_if; [eapply throw_bytes_I; eassumption|].
-    destruct (nth_error its (Z.to_nat z0)) as [it|] eqn:N; [|exact I]. unfold ok. cbn [res_I].
-    eapply dI0_intro. apply dI_push_v; [eassumption|]. eapply dI_child_valid; [exact H2|exact Gs|].
-    cbn [cell_children]. eapply nth_error_In; eauto. }
-  assert (Byt : res_I Ex (do i <- try_int key; do i <- to_i32 i; do bs <- try_bytes (d_heap d2) obj;
-              if (i <? 0) || (zlen bs <=? i) then throw_bytes (msg_out_of_range i) d2
-              else do b <- nth_error bs (Z.to_nat i); okd (push_int b d2))).
-  { destruct (try_int key); [|exact I]. destruct (to_i32 z); [|exact I]. destruct (try_bytes (d_heap d2) obj); [|exact I].
-    case_if; [eapply throw_bytes_I; eassumption|]. destruct (nth_error l (Z.to_nat z0)); [|exact I].
-    unfold okd. destruct (push_int z1 d2) as [d3|] eqn:Pi; [|exact I]. unfold ok. cbn [res_I].
-    eapply dI0_intro. eapply dI_push_int; eauto. }
-  destruct obj; try exact Byt; try apply Seq.
+  destruct obj; try (eapply pick_bytes_I; eassumption); try (eapply pick_seq_I; eassumption).
   destruct (get_map (d_heap d2) l) as [[rc es]|] eqn:Gm; [|exact I]. apply get_map_hget in Gm.
   destruct (map_index es key) as [i|]; [|eapply throw_bytes_I; eassumption].
   destruct (nth_error es i) as [[k v]|] eqn:N; [|exact I]. unfold ok. cbn [res_I].
@@ -471,6 +478,33 @@ Proof.
   clear - K. induction K; simpl; constructor; auto.
 Qed.
 
+Lemma conv_prim_I it t d1 U : dI Ex [] (it :: U) d1 ->
+  res_I Ex (if item_type it =? t then ok (push it d1)
+            else if t =? T_Integer then do z <- try_int it; okd (push_int z d1)
+            else if t =? T_ByteArray then do bs <- try_bytes (d_heap d1) it; ok (push (IBytes bs) d1)
+            else if t =? T_Buffer then do bs <- try_bytes (d_heap d1) it; ok (push_new_buffer bs d1)
+            else if t =? T_Boolean then do b <- try_bool it; ok (push (IBool b) d1) else None).
+Proof.
+  intros H1. assert (Vit : valid (d_heap d1) it) by (eapply dI_valid_U; [exact H1|simpl; tauto]).
+  repeat case_if; try exact I.
+  - unfold ok. cbn [res_I]. eapply dI0_intro. apply dI_push_v; eassumption.
+  - destruct (try_int it); [|exact I]. unfold okd. destruct (push_int z d1) eqn:Pi; [|exact I]. unfold ok. cbn [res_I].
+    eapply dI0_intro. eapply dI_push_int; eauto.
+  - destruct (try_bytes (d_heap d1) it); [|exact I]. unfold ok. cbn [res_I]. eapply dI0_intro. apply dI_push_v; [eassumption|exact I].
+  - destruct (try_bytes (d_heap d1) it); [|exact I]. unfold ok. cbn [res_I]. eapply dI0_intro. apply dI_push_new_buffer. eassumption.
+  - destruct (try_bool it); [|exact I]. unfold ok. cbn [res_I]. eapply dI0_intro. apply dI_push_v; [eassumption|exact I].
+Qed.
+Lemma conv_copy_I d1 U l (mk : loc -> item) :
+  dI Ex [] U d1 -> item_cloc (mk (length (d_heap d1))) = Some (length (d_heap d1)) ->
+  res_I Ex (do (_, its) <- get_seq (d_heap d1) l;
+            ok (push (mk (length (d_heap d1))) (set_heap d1 (d_heap d1 ++ [CSeq 0 its])))).
+Proof.
+  intros H1 Mk. destruct (get_seq (d_heap d1) l) as [[rc its]|] eqn:Gs; [|exact I]. apply get_seq_hget in Gs.
+  unfold ok. cbn [res_I]. eapply dI0_intro. apply dI_push_v.
+  - apply dI_alloc_dead; [eassumption|reflexivity| |exact I]. exact (wfh_children _ _ _ (dI_wfh _ _ _ _ H1) Gs).
+  - cbn [set_heap set_mem d_heap]. unfold valid. rewrite Mk. eexists. split; [apply hget_app_new|exact I].
+Qed.
+
 Lemma op_convert_I t d : dI0 Ex d -> res_I Ex (op_convert t d).
 Proof.
   intros [U H]. unfold op_convert, alloc, halloc.
@@ -480,32 +514,767 @@ Proof.
   assert (PB : forall b, dI0 Ex (push (IBool b) d1)) by (intros b; eapply dI0_intro; apply dI_push_v; [eassumption|exact I]).
   assert (PI : forall z, res_I Ex (okd (push_int z d1))).
   { intros z. unfold okd. destruct (push_int z d1) eqn:Pi; [|exact I]. unfold ok. cbn [res_I]. eapply dI0_intro. eapply dI_push_int; eauto. }
-  assert (Prim : item_cloc it = None ->
-     res_I Ex (if item_type it =? t then ok (push it d1)
-               else if t =? T_Integer then do z <- try_int it; okd (push_int z d1)
-               else if t =? T_ByteArray then do bs <- try_bytes (d_heap d1) it; ok (push (IBytes bs) d1)
-               else if t =? T_Buffer then do bs <- try_bytes (d_heap d1) it; ok (push_new_buffer bs d1)
-               else if t =? T_Boolean then do b <- try_bool it; ok (push (IBool b) d1) else None)).
-  { intros _. repeat case_if; try exact I; try exact Back.
-    - destruct (try_int it); [apply PI|exact I].
-    - destruct (try_bytes (d_heap d1) it); [|exact I]. unfold ok. cbn [res_I]. eapply dI0_intro. apply dI_push_v; [eassumption|exact I].
-    - destruct (try_bytes (d_heap d1) it); [|exact I]. unfold ok. cbn [res_I]. eapply dI0_intro. apply dI_push_new_buffer. eassumption.
-    - destruct (try_bool it); [|exact I]. apply PB. }
-  assert (Copy : forall l mk, item_cloc (mk (length (d_heap d1))) = Some (length (d_heap d1)) ->
-     res_I Ex (do (_, its) <- get_seq (d_heap d1) l;
-               ok (push (mk (length (d_heap d1))) (set_heap d1 (d_heap d1 ++ [CSeq 0 its])))).
-  { intros l mk Mk. destruct (get_seq (d_heap d1) l) as [[rc its]|] eqn:Gs; [|exact I]. apply get_seq_hget in Gs.
-    unfold ok. cbn [res_I]. eapply dI0_intro. apply dI_push_v.
-    - apply dI_alloc_dead; [eassumption|reflexivity| |exact I]. exact (wfh_children _ _ _ (dI_wfh _ _ _ _ H1) Gs).
-    - cbn [set_heap set_mem d_heap]. unfold valid. rewrite Mk. eexists. split; [apply hget_app_new|exact I]. }
-  destruct it; try (apply Prim; reflexivity).
+  destruct it; try (eapply conv_prim_I; eassumption).
   - (* Null *) case_if; [exact I|exact Back].
   - (* Buffer *) destruct (get_buf (d_heap d1) l) as [bs|]; [|exact I].
     repeat case_if; try exact I; try exact Back; try apply PB; try apply PI.
     unfold ok. cbn [res_I]. eapply dI0_intro. apply dI_push_v; [eassumption|exact I].
-  - (* Array *) repeat case_if; try exact I; try exact Back; try apply PB. apply (Copy l IStruct). reflexivity.
-  - (* Struct *) repeat case_if; try exact I; try exact Back; try apply PB. apply (Copy l IArr). reflexivity.
+  - (* Array *) repeat case_if; try exact I; try exact Back; try apply PB. eapply (conv_copy_I d1 _ l IStruct); [eassumption|reflexivity].
+  - (* Struct *) repeat case_if; try exact I; try exact Back; try apply PB. eapply (conv_copy_I d1 _ l IArr); [eassumption|reflexivity].
   - (* Map *) repeat case_if; try exact I; try exact Back; try apply PB.
   - (* Pointer *) repeat case_if; try exact I; try exact Back; try apply PB.
 Qed.
 End Readers.
+
+(* ================= FAMILY 5: UNPACK and VALUES (manual DecRC) ================= *)
+Lemma GI_new_roots h refs A X its : GI h refs A X -> Forall (valid h) its -> GI h refs (its ++ A) (its ++ X).
+Proof. intros H V. induction V as [|it its Vit _ IH]; [exact H|]. cbn [app]. apply GI_new_root; assumption. Qed.
+Lemma GI_count_prims h refs A X ps :
+  GI h refs (ps ++ A) X -> Forall (fun p => item_cloc p = None) ps -> GI h (refs + zlen ps) A X.
+Proof.
+  revert refs. induction ps as [|p ps IH]; intros refs H P; [rewrite zlen_nil, Z.add_0_r; exact H|].
+  inv P. cbn [app] in H. destruct H as [Hg W Vx Va]. inv Va.
+  rewrite zlen_cons'. replace (refs + (1 + zlen ps)) with (refs + 1 + zlen ps) by lia. apply IH; [|assumption].
+  constructor; try assumption. eapply G_count_prim; eauto.
+Qed.
+
+Lemma set_es_add_list d w es : set_es (d_add_list w d) es = d_add_list w (set_es d es).
+Proof. unfold d_add_list. cbn [set_es d_heap d_refs]. destruct (ref_add_list (d_heap d) (d_refs d) w); reflexivity. Qed.
+Lemma d_es_add_list d w : d_es (d_add_list w d) = d_es d.
+Proof. unfold d_add_list. destruct (ref_add_list (d_heap d) (d_refs d) w); reflexivity. Qed.
+Lemma d_refs_set_refs d r : d_refs (set_refs d r) = r. Proof. reflexivity. Qed.
+
+(* new uncounted roots on top of the stack *)
+Lemma dI_new_roots E A U d its :
+  dI E A U d -> Forall (valid (d_heap d)) its -> dI E (its ++ A) U (set_es d (its ++ d_es d)).
+Proof.
+  intros [Hgi Hu Hk] V. constructor; [|exact Hu|exact Hk]. cbn [set_es d_heap d_refs].
+  pose proof (GI_new_roots _ _ _ _ its Hgi V) as N.
+  eapply GI_meq; try exact N; try apply meq_refl; [| |apply N].
+  - meq_solve.
+  - destruct N as [_ _ Vx _]. eapply Forall_valid_perm; [|exact Vx]. in_solve.
+Qed.
+
+(* DecRC by hand of a compound held counted (after popNoRef), with refs-- *)
+Lemma dI_dec_rc E U d it l0 c :
+  dI (it :: E) [] U d -> item_cloc it = Some l0 -> hget (d_heap d) l0 = Some c ->
+  1 <= cell_rc c /\ is_comp c /\
+  dI ((if cell_rc c - 1 =? 0 then cell_children c else []) ++ E) [] U
+     (set_heap (set_refs d (d_refs d - 1)) (hset (d_heap d) l0 (cell_set_rc c (cell_rc c - 1)))).
+Proof.
+  intros [Hgi Hu Hk] Ecl Ec.
+  assert (M : GI (d_heap d) (d_refs d) [] (it :: droots_l d ++ E)).
+  { eapply GI_meq; try exact Hgi; try apply meq_refl; [| |constructor].
+    - split; [intros l; repeat rewrite ?occ_app, ?occ_cons; lia|repeat rewrite ?zlen_app, ?zlen_cons'; lia].
+    - destruct Hgi as [_ _ Vx _]. eapply Forall_valid_perm; [|exact Vx]. intros a. simpl. repeat rewrite ?in_app_iff. simpl. tauto. }
+  destruct (GI_dec_rc _ _ _ _ _ _ M Ecl Ec) as (Rp & Cc & N). split; [assumption|]. split; [assumption|].
+  assert (S : same_shape (d_heap d) (hset (d_heap d) l0 (cell_set_rc c (cell_rc c - 1)))).
+  { eapply same_shape_hset; eauto. apply set_rc_comp. }
+  constructor.
+  - cbn [set_heap set_refs set_mem d_heap d_refs]. rewrite droots_l_set_heap, droots_l_set_refs.
+    eapply GI_meq; try exact N; try apply meq_refl; [| |constructor].
+    + destruct (cell_rc c - 1 =? 0); split; try (intros l; repeat rewrite ?occ_app; cbn [occ]; lia); repeat rewrite ?zlen_app; rewrite ?zlen_nil; lia.
+    + destruct N as [_ _ Vx _]. eapply Forall_valid_perm; [|exact Vx]. intros a.
+      destruct (cell_rc c - 1 =? 0); repeat rewrite ?in_app_iff; simpl; tauto.
+  - cbn [set_heap set_refs set_mem d_heap]. eapply Forall_valid_shape; eauto.
+  - cbn [set_heap set_refs set_mem d_heap]. apply keys_prim_hset; [assumption|]. apply cell_kp_set_rc. eapply keys_prim_get; eauto.
+Qed.
+
+Lemma flat_entries_split es : meq (flat_entries es) (map fst es ++ map snd es) /\
+  (forall a, In a (map fst es ++ map snd es) <-> In a (flat_entries es)).
+Proof.
+  induction es as [|[k v] t [[Mo Ml] Hi]]; [split; [apply meq_refl|tauto]|]. split; [split|].
+  - intros l. specialize (Mo l). cbn [flat_entries map fst snd app occ]. repeat (rewrite ?occ_app, ?occ_cons in * ). lia.
+  - cbn [flat_entries map fst snd app]. repeat (rewrite ?zlen_app, ?zlen_cons' in * ). lia.
+  - intros a. specialize (Hi a). cbn [flat_entries map fst snd]. rewrite !in_app_iff in *. cbn [In]. tauto.
+Qed.
+Lemma zlen_flat_entries es : zlen (flat_entries es) = 2 * zlen es.
+Proof. induction es as [|[k v] t IH]; cbn [flat_entries]; [reflexivity|]. rewrite !zlen_cons'. lia. Qed.
+
+Section Unpack.
+Variable Ex : list item.
+
+Lemma unpack_seq_I d1 U it l :
+  dI (it :: Ex) [] U d1 -> item_cloc it = Some l ->
+  res_I Ex (do (rc, its) <- get_seq (d_heap (set_refs d1 (d_refs d1 - 1))) l;
+            let d := set_heap (set_refs d1 (d_refs d1 - 1)) (hset (d_heap (set_refs d1 (d_refs d1 - 1))) l (CSeq (rc - 1) its)) in
+            let d := if rc - 1 =? 0 then d else d_add_list (rev its) d in
+            okd (push_int (zlen its) (set_es d (its ++ d_es d)))).
+Proof.
+  intros H1 Ecl. cbn [set_refs set_mem d_heap].
+  destruct (get_seq (d_heap d1) l) as [[rc its]|] eqn:Gs; [|exact I]. apply get_seq_hget in Gs.
+  destruct (dI_dec_rc _ _ _ _ _ _ H1 Ecl Gs) as (Rp & _ & H2). cbn [cell_rc cell_set_rc cell_children] in *.
+  cbv zeta. unfold okd.
+  assert (Vits : Forall (valid (d_heap d1)) its) by exact (wfh_children _ _ _ (dI_wfh _ _ _ _ H1) Gs).
+  destruct (rc - 1 =? 0) eqn:Z.
+  - match goal with |- res_I _ (match push_int _ ?dd with _ => _ end) => assert (H3 : dI Ex [] U dd) end.
+    { eapply dI_unhold; [exact H2| |]; cbn [set_heap set_refs set_mem d_es]; [meq_solve|in_solve]. }
+    destruct (push_int _ _) eqn:Pi; [|exact I]. unfold ok. cbn [res_I]. eapply dI0_intro. eapply dI_push_int; eauto.
+  - rewrite d_es_add_list, set_es_add_list.
+    match goal with |- res_I _ (match push_int _ ?dd with _ => _ end) => assert (H3 : dI Ex [] U dd) end.
+    { apply dI_add_list. cbn [app] in H2.
+      pose proof (dI_new_roots _ _ _ _ its H2) as N. cbn [set_heap set_refs set_mem d_heap d_es] in N.
+      eapply dI_rearr; [apply N| | | | | | |]; try reflexivity; try apply meq_refl; try tauto.
+      - eapply Forall_valid_shape; [|exact Vits]. eapply same_shape_hset; eauto.
+      - split; [intros x; rewrite !occ_app, occ_rev; reflexivity|rewrite !zlen_app, zlen_rev; reflexivity].
+      - intros a. rewrite !in_app_iff, <- in_rev. tauto. }
+    destruct (push_int _ _) eqn:Pi; [|exact I]. unfold ok. cbn [res_I]. eapply dI0_intro. eapply dI_push_int; eauto.
+Qed.
+
+Lemma unpack_map_I d1 U it l :
+  dI (it :: Ex) [] U d1 -> item_cloc it = Some l ->
+  res_I Ex (do (rc, es) <- get_map (d_heap (set_refs d1 (d_refs d1 - 1))) l;
+            let d := set_heap (set_refs d1 (d_refs d1 - 1)) (hset (d_heap (set_refs d1 (d_refs d1 - 1))) l (CMap (rc - 1) es)) in
+            let d := if rc - 1 =? 0 then d
+                     else let d := d_add_list (rev (map snd es)) d in set_refs d (d_refs d + zlen es) in
+            okd (push_int (zlen es) (set_es d (flat_entries es ++ d_es d)))).
+Proof.
+  intros H1 Ecl. cbn [set_refs set_mem d_heap].
+  destruct (get_map (d_heap d1) l) as [[rc es]|] eqn:Gm; [|exact I]. apply get_map_hget in Gm.
+  destruct (dI_dec_rc _ _ _ _ _ _ H1 Ecl Gm) as (Rp & _ & H2). cbn [cell_rc cell_set_rc cell_children] in *.
+  cbv zeta. unfold okd.
+  assert (Vfl : Forall (valid (d_heap d1)) (flat_entries es)) by exact (wfh_children _ _ _ (dI_wfh _ _ _ _ H1) Gm).
+  pose proof (keys_prim_get _ _ _ (di_kp _ _ _ _ H1) Gm) as Kp. simpl in Kp.
+  destruct (flat_entries_split es) as [[Fo Fl] Fi].
+  destruct (rc - 1 =? 0) eqn:Z.
+  - match goal with |- res_I _ (match push_int _ ?dd with _ => _ end) => assert (H3 : dI Ex [] U dd) end.
+    { eapply dI_unhold; [exact H2| |]; cbn [set_heap set_refs set_mem d_es]; [meq_solve|in_solve]. }
+    destruct (push_int _ _) eqn:Pi; [|exact I]. unfold ok. cbn [res_I]. eapply dI0_intro. eapply dI_push_int; eauto.
+  - (* referenced: values are added, keys counted by hand *)
+    set (d2 := set_heap (set_refs d1 (d_refs d1 - 1)) (hset (d_heap d1) l (CMap (rc - 1) es))) in *.
+    cbn [app] in H2.
+    assert (Vfl2 : Forall (valid (d_heap d2)) (flat_entries es)).
+    { eapply Forall_valid_shape; [|exact Vfl]. eapply same_shape_hset; eauto. }
+    pose proof (dI_new_roots _ _ _ _ (flat_entries es) H2 Vfl2) as N. rewrite app_nil_r in N.
+    (* A = flat_entries es, as values ++ keys *)
+    assert (N2 : dI Ex (rev (map snd es) ++ map fst es) U (set_es d2 (flat_entries es ++ d_es d2))).
+    { eapply dI_rearr; [apply N| | | | | | |]; try reflexivity; try apply meq_refl; try tauto.
+      - split; [intros x; specialize (Fo x); rewrite !occ_app, ?occ_rev in *; lia|rewrite !zlen_app, ?zlen_rev in *; lia].
+      - intros a Ha. apply Fi. rewrite !in_app_iff, <- ?in_rev in *. tauto. }
+    apply dI_add_list in N2.
+    match goal with |- res_I _ (match push_int _ ?dd with _ => _ end) => assert (H3 : dI Ex [] U dd) end.
+    { assert (Pk : Forall (fun p => item_cloc p = None) (map fst es)).
+      { clear - Kp. induction Kp; simpl; constructor; auto. }
+      revert N2. unfold d_add_list. cbn [set_es d_heap d_refs].
+      destruct (ref_add_list (d_heap d2) (d_refs d2) (rev (map snd es))) as [h' r']. intros [Hgi Hu Hk].
+      cbn [set_es set_refs set_mem d_heap d_refs d_es] in *.
+      constructor; [|exact Hu|exact Hk].
+      rewrite <- (app_nil_r (map fst es)) in Hgi. pose proof (GI_count_prims _ _ _ _ _ Hgi Pk) as C.
+      unfold zlen in C at 1. rewrite map_length in C. fold (zlen es) in C. exact C. }
+    destruct (push_int _ _) eqn:Pi; [|exact I]. unfold ok. cbn [res_I]. eapply dI0_intro. eapply dI_push_int; eauto.
+Qed.
+
+Lemma op_unpack_I d : dI0 Ex d -> res_I Ex (op_unpack d).
+Proof.
+  intros [U H]. unfold op_unpack.
+  destruct (pop_noref d) as [[e d1]|] eqn:P1; [|exact I]. pose proof (dI_pop_noref _ _ _ _ _ _ H P1) as H1.
+  cbv zeta. destruct e; try exact I.
+  - eapply unpack_seq_I; [eassumption|reflexivity].
+  - eapply unpack_seq_I; [eassumption|reflexivity].
+  - eapply unpack_map_I; [eassumption|reflexivity].
+Qed.
+End Unpack.
+
+(* ---------- VALUES ---------- *)
+Lemma rc_only_shape h h' : rc_only h h' -> same_shape h h'.
+Proof. intros [_ H] l c E C. destruct (H l c E) as (r & E'). eexists. split; [exact E'|apply set_rc_comp; assumption]. Qed.
+Lemma d_add_shape it d : same_shape (d_heap d) (d_heap (d_add it d)).
+Proof.
+  unfold d_add. pose proof (ref_add_rc_only (d_heap d) (d_refs d) it) as R.
+  destruct (ref_add (d_heap d) (d_refs d) it). apply rc_only_shape. exact R.
+Qed.
+Lemma d_remove_shape it d : same_shape (d_heap d) (d_heap (d_remove it d)).
+Proof.
+  unfold d_remove. pose proof (ref_remove_rc_only (d_heap d) (d_refs d) it) as R.
+  destruct (ref_remove (d_heap d) (d_refs d) it). apply rc_only_shape. exact R.
+Qed.
+
+(* a new reference to an existing value, held counted after Add *)
+Lemma dI_hold_added E U d it : dI E [] U d -> valid (d_heap d) it -> dI (it :: E) [] U (d_add it d).
+Proof.
+  intros [Hgi Hu Hk] V. apply dI_add. constructor; [|exact Hu|exact Hk].
+  pose proof (GI_new_root _ _ _ _ it Hgi V) as N.
+  eapply GI_meq; try exact N; try apply meq_refl; [| |apply N].
+  - split; [intros l; repeat rewrite ?occ_app, ?occ_cons; lia|repeat rewrite ?zlen_app, ?zlen_cons'; lia].
+  - destruct N as [_ _ Vx _]. eapply Forall_valid_perm; [|exact Vx]. intros a; repeat (rewrite ?in_app_iff; simpl); tauto.
+Qed.
+
+Section Values.
+Variable Ex : list item.
+
+(* source still referenced: every value is copied (structs cloned) and added *)
+Lemma cp_values_ref_I : forall src acc d U arr d',
+  dI (acc ++ Ex) [] U d -> Forall (valid (d_heap d)) src -> cp_values true src acc d = Some (arr, d') ->
+  exists U', dI (arr ++ Ex) [] U' d'.
+Proof.
+  induction src as [|it src IH]; intros acc d U arr d' H V; simpl.
+  - intros Q; inv Q. exists U. eapply dI_E_meq; [exact H| |].
+    + split; [intros l; rewrite !occ_app, occ_rev; reflexivity|rewrite !zlen_app, zlen_rev; reflexivity].
+    + intros a. rewrite !in_app_iff, <- in_rev. tauto.
+  - inv V. destruct (clone_if_struct (d_heap d) it) as [[[h cl] b]|] eqn:C; [|discriminate].
+    destruct (dI_clone _ _ _ _ _ _ _ _ H H2 C) as [H1 Vcl].
+    destruct (clone_if_struct_ext _ _ _ _ _ (dI_wfh _ _ _ _ H) H2 C) as ((_ & S1 & _) & _ & _).
+    intros Q. eapply (IH (cl :: acc)); [| |exact Q].
+    + cbn [app]. apply dI_hold_added; [exact H1|exact Vcl].
+    + eapply Forall_valid_shape; [|exact H3]. eapply same_shape_trans; [exact S1|].
+      change h with (d_heap (set_heap d h)) at 1. apply d_add_shape.
+Qed.
+
+(* source no longer referenced: its children are held; structs are replaced by clones *)
+Lemma cp_values_unref_I : forall src acc d U arr d',
+  dI (acc ++ src ++ Ex) [] U d -> cp_values false src acc d = Some (arr, d') ->
+  exists U', dI (arr ++ Ex) [] U' d'.
+Proof.
+  induction src as [|it src IH]; intros acc d U arr d' H; simpl.
+  - intros Q; inv Q. exists U. cbn [app] in H. eapply dI_E_meq; [exact H| |].
+    + split; [intros l; rewrite !occ_app, occ_rev; lia|rewrite !zlen_app, zlen_rev; lia].
+    + intros a. rewrite !in_app_iff, <- in_rev. tauto.
+  - assert (Vit : valid (d_heap d) it).
+    { eapply dI_valid_E; [exact H|]. rewrite !in_app_iff. simpl. tauto. }
+    destruct (clone_if_struct (d_heap d) it) as [[[h cl] b]|] eqn:C; [|discriminate].
+    destruct (dI_clone _ _ _ _ _ _ _ _ H Vit C) as [H1 Vcl].
+    intros Q. destruct b.
+    + (* a struct: the held original is removed, the clone added and held *)
+      eapply (IH (cl :: acc)); [|exact Q]. cbn [app].
+      assert (H2 : dI (acc ++ src ++ Ex) [] (it :: cl :: U) (d_remove it (set_heap d h))).
+      { apply dI_remove. eapply dI_E_meq; [exact H1| |].
+        - split; [intros l; repeat rewrite ?occ_app, ?occ_cons; lia|repeat rewrite ?zlen_app, ?zlen_cons'; lia].
+        - intros a; repeat (rewrite ?in_app_iff; simpl); tauto. }
+      apply dI_hold_added; [exact H2|]. eapply valid_shape; [apply d_remove_shape|exact Vcl].
+    + (* not a struct: cl = it *)
+      assert (E : cl = it /\ h = d_heap d).
+      { unfold clone_if_struct in C. destruct it; try (inv C; split; reflexivity).
+        destruct (clone_struct clone_fuel (d_heap d) l (MaxClonableNumOfItems - 1)) as [[[? ?] ?]|]; discriminate C. }
+      destruct E as [-> ->].
+      eapply (IH (it :: acc)); [|exact Q]. eapply dI_E_meq; [exact H1| |].
+      * split; [intros l; repeat rewrite ?occ_app, ?occ_cons; lia|repeat rewrite ?zlen_app, ?zlen_cons'; lia].
+      * intros a; repeat (rewrite ?in_app_iff; simpl); tauto.
+Qed.
+
+(* the result array: children held, one count taken over from the popped operand (pushItemCounted(res, 0)) *)
+Lemma dI_alloc_live_tok U d c r tok :
+  dI (cell_children c ++ tok :: Ex) [] U d -> item_cloc tok = None -> cell_rc c = 1 -> is_comp c -> cell_kp c ->
+  item_cloc r = Some (length (d_heap d)) ->
+  dI Ex [] U (push_counted r 0 (set_heap d (d_heap d ++ [c]))).
+Proof.
+  intros H Pt Z C Kc Er.
+  assert (H1 : dI (cell_children c ++ Ex) [] U (set_refs d (d_refs d - 1))).
+  { eapply dI_untoken; [|exact Pt]. eapply dI_E_meq; [exact H| |].
+    - split; [intros l; repeat rewrite ?occ_app, ?occ_cons; lia|repeat rewrite ?zlen_app, ?zlen_cons'; lia].
+    - intros a; repeat (rewrite ?in_app_iff; simpl); tauto. }
+  pose proof (dI_alloc_live_held _ _ _ c r H1 Z C Kc Er) as N.
+  destruct N as [Hgi Hu Hk]. constructor; [|exact Hu|exact Hk].
+  cbn [push_counted push_noref set_refs set_heap set_mem set_es d_heap d_refs] in *.
+  replace (d_refs d + 0) with (d_refs d - 1 + 1) by lia. exact Hgi.
+Qed.
+End Values.
+
+Lemma dI_dec_rc_tok E U d it l0 c :
+  dI (it :: E) [] U d -> item_cloc it = Some l0 -> hget (d_heap d) l0 = Some c ->
+  dI ((if cell_rc c - 1 =? 0 then cell_children c else []) ++ INull :: E) [] U
+     (set_heap d (hset (d_heap d) l0 (cell_set_rc c (cell_rc c - 1)))).
+Proof.
+  intros H Ecl Ec. destruct (dI_dec_rc _ _ _ _ _ _ H Ecl Ec) as (_ & _ & [Hgi Hu Hk]).
+  constructor; [|exact Hu|exact Hk]. cbn [set_heap set_refs set_mem d_heap d_refs] in *.
+  rewrite droots_l_set_heap in *. rewrite droots_l_set_refs in Hgi.
+  destruct Hgi as [Hg W Vx Va].
+  pose proof (G_token _ _ _ _ INull eq_refl Hg) as T. replace (d_refs d - 1 + 1) with (d_refs d) in T by lia.
+  constructor; try assumption.
+  - eapply G_meq; try exact T; try apply meq_refl.
+    split; [intros l; repeat rewrite ?occ_app, ?occ_cons; lia|repeat rewrite ?zlen_app, ?zlen_cons'; lia].
+  - eapply Forall_valid_perm; [|exact (Forall_cons INull I Vx)]. intros a; repeat (rewrite ?in_app_iff; simpl); tauto.
+Qed.
+
+Lemma dI_untokens E U d ps :
+  dI (ps ++ E) [] U d -> Forall (fun p => item_cloc p = None) ps -> dI E [] U (set_refs d (d_refs d - zlen ps)).
+Proof.
+  revert d. induction ps as [|p ps IH]; intros d H P.
+  - rewrite zlen_nil. destruct H as [Hgi Hu Hk]. constructor; [|exact Hu|exact Hk].
+    cbn [set_refs set_mem d_heap d_refs]. rewrite droots_l_set_refs. replace (d_refs d - 0) with (d_refs d) by lia. exact Hgi.
+  - inversion P as [|? ? Hp Hps]; subst. cbn [app] in H. pose proof (dI_untoken _ _ _ _ H Hp) as H'.
+    specialize (IH _ H' Hps). destruct IH as [Hgi Hu Hk]. constructor; [|exact Hu|exact Hk].
+    cbn [set_refs set_mem d_heap d_refs] in *. rewrite droots_l_set_refs in *. rewrite zlen_cons'.
+    replace (d_refs d - (1 + zlen ps)) with (d_refs d - 1 - zlen ps) by lia. exact Hgi.
+Qed.
+
+Section Values2.
+Variable Ex : list item.
+
+Lemma values_finish arr d U :
+  dI (arr ++ INull :: Ex) [] U d ->
+  res_I Ex (let (l', d) := alloc (CSeq 1 arr) d in ok (push_counted (IArr l') 0 d)).
+Proof.
+  intros H. unfold alloc, halloc, ok. cbn [res_I]. eapply dI0_intro.
+  apply (dI_alloc_live_tok Ex U d (CSeq 1 arr) (IArr (length (d_heap d))) INull); try reflexivity; try exact I. exact H.
+Qed.
+
+Lemma op_values_I d : dI0 Ex d -> res_I Ex (op_values d).
+Proof.
+  intros [U H]. unfold op_values.
+  destruct (pop_noref d) as [[it d1]|] eqn:P1; [|exact I]. pose proof (dI_pop_noref _ _ _ _ _ _ H P1) as H1.
+  assert (Seq : forall l, item_cloc it = Some l ->
+    res_I Ex (match get_seq (d_heap d1) l with
+              | Some (rc, its) =>
+                  match cp_values (negb (rc - 1 =? 0)) its [] (set_heap d1 (hset (d_heap d1) l (CSeq (rc - 1) its))) with
+                  | Some (arr, d) => let (l', d) := alloc (CSeq 1 arr) d in ok (push_counted (IArr l') 0 d)
+                  | None => None end
+              | None => None end)).
+  { intros l Ecl. destruct (get_seq (d_heap d1) l) as [[rc its]|] eqn:Gs; [|exact I]. apply get_seq_hget in Gs.
+    pose proof (dI_dec_rc_tok _ _ _ _ _ _ H1 Ecl Gs) as H2. cbn [cell_rc cell_set_rc cell_children] in H2.
+    set (d2 := set_heap d1 (hset (d_heap d1) l (CSeq (rc - 1) its))) in *.
+    destruct (cp_values (negb (rc - 1 =? 0)) its [] d2) as [[arr d3]|] eqn:Cp; [|exact I].
+    destruct (rc - 1 =? 0) eqn:Z; cbn [negb] in Cp.
+    - destruct (cp_values_unref_I (INull :: Ex) its [] d2 U arr d3) as [U' H3]; [|exact Cp|].
+      + cbn [app]. eapply dI_E_meq; [exact H2| |]; [apply meq_refl|auto].
+      + apply (values_finish arr d3 U'). exact H3.
+    - destruct (cp_values_ref_I (INull :: Ex) its [] d2 U arr d3) as [U' H3]; [| |exact Cp|].
+      + cbn [app] in *. exact H2.
+      + eapply Forall_valid_shape; [|exact (wfh_children _ _ _ (dI_wfh _ _ _ _ H1) Gs)].
+        unfold d2. cbn [set_heap set_mem d_heap]. eapply same_shape_hset; eauto.
+      + apply (values_finish arr d3 U'). exact H3. }
+  destruct it; try exact I; try (apply Seq; reflexivity).
+  (* Map *)
+  destruct (get_map (d_heap d1) l) as [[rc es]|] eqn:Gm; [|exact I]. apply get_map_hget in Gm.
+  pose proof (dI_dec_rc_tok _ _ _ _ _ _ H1 eq_refl Gm) as H2. cbn [cell_rc cell_set_rc cell_children] in H2.
+  cbv zeta. set (d2 := set_heap d1 (hset (d_heap d1) l (CMap (rc - 1) es))) in *.
+  pose proof (keys_prim_get _ _ _ (di_kp _ _ _ _ H1) Gm) as Kp. simpl in Kp.
+  assert (Pk : Forall (fun p => item_cloc p = None) (map fst es)) by (clear - Kp; induction Kp; simpl; constructor; auto).
+  destruct (flat_entries_split es) as [[Fo Fl] Fi].
+  destruct (rc - 1 =? 0) eqn:Z; cbn [negb].
+  - assert (H3 : dI (map snd es ++ INull :: Ex) [] U (set_refs d2 (d_refs d2 - zlen es))).
+    { replace (zlen es) with (zlen (map fst es)) by (unfold zlen; rewrite map_length; reflexivity).
+      apply dI_untokens; [|exact Pk]. eapply dI_E_meq; [exact H2| |].
+      - split; [intros x; specialize (Fo x); repeat rewrite ?occ_app in *; lia|repeat rewrite ?zlen_app in *; lia].
+      - intros a Ha. rewrite !in_app_iff in *. destruct Ha as [Ha|[Ha|Ha]]; try tauto; left; apply Fi; rewrite in_app_iff; tauto. }
+    destruct (cp_values false (map snd es) [] (set_refs d2 (d_refs d2 - zlen es))) as [[arr d3]|] eqn:Cp; [|exact I].
+    destruct (cp_values_unref_I (INull :: Ex) (map snd es) [] (set_refs d2 (d_refs d2 - zlen es)) U arr d3) as [U' H4]; [|exact Cp|].
+    + cbn [app]. exact H3.
+    + apply (values_finish arr d3 U'). exact H4.
+  - destruct (cp_values true (map snd es) [] d2) as [[arr d3]|] eqn:Cp; [|exact I].
+    destruct (cp_values_ref_I (INull :: Ex) (map snd es) [] d2 U arr d3) as [U' H4]; [| |exact Cp|].
+    + cbn [app] in *. exact H2.
+    + assert (V : Forall (valid (d_heap d1)) (flat_entries es)) by exact (wfh_children _ _ _ (dI_wfh _ _ _ _ H1) Gm).
+      eapply Forall_valid_shape; [unfold d2; cbn [set_heap set_mem d_heap]; eapply same_shape_hset; eauto|].
+      rewrite Forall_forall in *. intros a Ha. apply V. apply Fi. rewrite in_app_iff. tauto.
+    + apply (values_finish arr d3 U'). exact H4.
+Qed.
+End Values2.
+
+(* ================= FAMILY 6: REMOVE and SETITEM (un-counting before the edit) ================= *)
+Lemma wfh_rc_only h h' : rc_only h h' -> wfh h -> wfh h'.
+Proof.
+  intros R W. pose proof (rc_only_shape _ _ R) as S. destruct R as [L H]. unfold wfh in *. apply Forall_forall. intros c' Hin.
+  apply In_nth_error in Hin. destruct Hin as [i Ei].
+  assert (Li : (i < length h)%nat) by (rewrite <- L; apply nth_error_Some; congruence).
+  destruct (nth_error h i) as [c|] eqn:Ec; [|apply nth_error_None in Ec; lia].
+  destruct (H i c Ec) as (r & E'). unfold hget in E'. rewrite Ei in E'. inv E'. rewrite set_rc_children.
+  eapply Forall_valid_shape; [exact S|]. eapply Forall_nth_error in Ec; [|exact W]. exact Ec.
+Qed.
+Lemma wfh_hset h l c c' :
+  wfh h -> hget h l = Some c -> (is_comp c -> is_comp c') -> Forall (valid h) (cell_children c') -> wfh (hset h l c').
+Proof.
+  intros W E K V. assert (S : same_shape h (hset h l c')) by (eapply same_shape_hset; eauto).
+  unfold wfh in *.
+  assert (Q : forall h0 j, Forall (fun c0 => Forall (valid h) (cell_children c0)) h0 ->
+              Forall (fun c0 => Forall (valid (hset h l c')) (cell_children c0)) (hset h0 j c')).
+  { induction h0 as [|x h0 IH]; intros [|j] F; simpl; inv F; constructor;
+      try (eapply Forall_valid_shape; [exact S|assumption]); auto.
+    eapply Forall_impl; [|exact H2]. intros a. apply Forall_valid_shape. exact S. }
+  apply Q. assumption.
+Qed.
+
+Lemma dI_remove_then_edit E U d l c old cf add :
+  dI E [] U d -> hget (d_heap d) l = Some c -> live c = true -> is_comp c -> In old (cell_children c) ->
+  forall c1, hget (d_heap (d_remove old d)) l = Some c1 ->
+  is_comp cf -> cell_kp cf -> cell_rc cf = cell_rc c1 -> meq (cell_children cf ++ [old]) (cell_children c ++ add) ->
+  Forall (valid (d_heap d)) (cell_children cf) -> Forall (valid (d_heap d)) add ->
+  dI E (if live c1 then add else []) (old :: U)
+     (set_heap (d_remove old d) (hset (d_heap (d_remove old d)) l cf)).
+Proof.
+  intros [[Hg W Vx Va] Hu Hk] Ec Lc Cc Hin c1 E1 Ccf Kcf Erc M Vcf Vadd.
+  assert (Vold : valid (d_heap d) old).
+  { pose proof (wfh_children _ _ _ W Ec) as V. rewrite Forall_forall in V. auto. }
+  pose proof (ref_remove_rc_only (d_heap d) (d_refs d) old) as Ro.
+  unfold d_remove in *. destruct (ref_remove (d_heap d) (d_refs d) old) as [h1 r1] eqn:Rr.
+  cbn [set_mem set_heap d_heap d_refs fst] in *.
+  pose proof (rc_only_shape _ _ Ro) as S1.
+  destruct (proj2 Ro l c Ec) as (r & Ec1). rewrite E1 in Ec1. inv Ec1.
+  assert (S2 : same_shape h1 (hset h1 l cf)) by (eapply same_shape_hset; eauto).
+  assert (S : same_shape (d_heap d) (hset h1 l cf)) by (eapply same_shape_trans; eauto).
+  assert (Gf : G (hset h1 l cf) r1 (if live (cell_set_rc c r) then add else []) (droots_l d ++ E)).
+  { destruct (item_cloc old) as [lo|] eqn:Eo.
+    - pose proof (G_remove_then_edit (d_heap d) (d_refs d) (droots_l d ++ E) l c old lo cf add Hg Ec Lc Cc Hin Eo) as K.
+      rewrite Rr in K. cbn [fst snd] in K. apply (K (cell_set_rc c r) E1 (set_rc_children c r) Erc M).
+    - (* a primitive element: Remove is refs-- *)
+      unfold ref_remove in Rr. rewrite Eo in Rr. inv Rr.
+      assert (r = cell_rc c) by (rewrite Ec in E1; inv E1; destruct c; simpl in *; try tauto; congruence).
+      subst r. rewrite set_rc_id in *. rewrite Lc.
+      pose proof (G_edit _ _ _ _ l c cf add [old] Hg Ec Erc) as Ed. rewrite Lc in Ed. specialize (Ed M).
+      rewrite app_nil_r in Ed. cbn [app] in Ed. eapply G_untoken; eauto. }
+  constructor; [constructor| |].
+  - rewrite droots_l_set_heap. exact Gf.
+  - eapply wfh_hset; [eapply wfh_rc_only; eauto|exact E1|auto|eapply Forall_valid_shape; eauto].
+  - rewrite droots_l_set_heap. eapply Forall_valid_shape; eauto.
+  - destruct (live (cell_set_rc c r)); [eapply Forall_valid_shape; eauto|constructor].
+  - constructor; [eapply valid_shape; eauto|eapply Forall_valid_shape; eauto].
+  - apply keys_prim_hset; [eapply keys_prim_rc_only; eauto|assumption].
+Qed.
+
+Lemma flat_remove_meq i es k v : nth_error es i = Some (k, v) ->
+  meq (flat_entries (remove_nth i es) ++ [k; v]) (flat_entries es) /\
+  (forall a, In a (flat_entries (remove_nth i es)) -> In a (flat_entries es)) /\
+  In k (flat_entries es) /\ In v (flat_entries es) /\
+  (Forall (fun kv => item_cloc (fst kv) = None) es -> Forall (fun kv => item_cloc (fst kv) = None) (remove_nth i es)).
+Proof.
+  revert i. induction es as [|[k' v'] t IH]; intros [|i] E; simpl in *; try discriminate.
+  - inv E. repeat split; auto.
+    + intros l. rewrite occ_app. cbn [occ]. lia.
+    + rewrite zlen_app, !zlen_cons', zlen_nil. lia.
+    + intros F. inv F. assumption.
+  - destruct (IH i E) as ([Mo Ml] & Hi & Hk & Hv & Hf). repeat split; auto.
+    + intros l. specialize (Mo l). cbn [app occ]. rewrite occ_app in *. cbn [occ] in *. lia.
+    + cbn [app]. rewrite !zlen_cons', zlen_app in *. rewrite !zlen_cons', zlen_nil in *. lia.
+    + intros a [->|[->|H]]; auto.
+    + intros F. inv F. constructor; auto.
+Qed.
+
+Section RemoveSet.
+Variable Ex : list item.
+
+Lemma remove_seq_I key d2 U l :
+  dI Ex [] U d2 ->
+  res_I Ex (do (rc, its) <- get_seq (d_heap d2) l;
+            do k <- try_int key; do k <- to_i32 k;
+            if (k <? 0) || (zlen its <=? k) then None
+            else do old <- nth_error its (Z.to_nat k);
+                 let d := if rc =? 0 then d2 else d_remove old d2 in
+                 do (rc', its') <- get_seq (d_heap d) l;
+                 ok (set_heap d (hset (d_heap d) l (CSeq rc' (remove_nth (Z.to_nat k) its'))))).
+Proof.
+  intros H2. destruct (get_seq (d_heap d2) l) as [[rc its]|] eqn:Gs; [|exact I]. pose proof (get_seq_hget _ _ _ _ Gs) as Gh.
+  destruct (try_int key); [|exact I]. destruct (to_i32 z) as [k|]; [|exact I]. case_if; [exact I|].
+  destruct (nth_error its (Z.to_nat k)) as [old|] eqn:N; [|exact I]. cbv zeta.
+  destruct (remove_nth_meq _ _ _ N) as ([Mo Ml] & S).
+  assert (Vits : Forall (valid (d_heap d2)) its) by exact (wfh_children _ _ _ (dI_wfh _ _ _ _ H2) Gh).
+  destruct (rc =? 0) eqn:Z.
+  - rewrite Gs. unfold ok. cbn [res_I]. eapply dI0_intro.
+    pose proof (dI_edit _ _ _ _ l _ (CSeq rc (remove_nth (Z.to_nat k) its)) [] [] H2 Gh I I eq_refl I) as Ed.
+    rewrite live_seq, Z in Ed. cbn [negb app] in Ed. apply Ed; [auto| |constructor].
+    cbn [cell_children]. apply Forall_remove_nth. assumption.
+  - destruct (get_seq (d_heap (d_remove old d2)) l) as [[rc' its']|] eqn:Gs2; [|exact I]. apply get_seq_hget in Gs2.
+    assert (Eits : its' = its).
+    { pose proof (ref_remove_rc_only (d_heap d2) (d_refs d2) old) as [_ Ro]. destruct (Ro l _ Gh) as (r & Er).
+      unfold d_remove in Gs2. destruct (ref_remove (d_heap d2) (d_refs d2) old). cbn [set_mem d_heap fst] in *.
+      rewrite Er in Gs2. cbn [cell_set_rc] in Gs2. inv Gs2. reflexivity. }
+    subst its'. unfold ok. cbn [res_I].
+    pose proof (dI_remove_then_edit Ex U d2 l (CSeq rc its) old (CSeq rc' (remove_nth (Z.to_nat k) its)) [] H2 Gh) as K.
+    rewrite live_seq, Z in K. specialize (K eq_refl I (nth_error_In _ _ N) _ Gs2 I I eq_refl).
+    eapply dI0_intro.
+    assert (Q : forall b : bool, (if b then @nil item else []) = []) by (intros []; reflexivity).
+    rewrite Q in K. apply K.
+    + cbn [cell_children]. rewrite app_nil_r. split; [intros x; rewrite <- Mo; reflexivity|lia].
+    + cbn [cell_children]. apply Forall_remove_nth. assumption.
+    + constructor.
+Qed.
+
+Lemma op_remove_I d : dI0 Ex d -> res_I Ex (op_remove d).
+Proof.
+  intros [U H]. unfold op_remove.
+  destruct (pop d) as [[key d1]|] eqn:P1; [|exact I]. pose proof (dI_pop _ _ _ _ _ H P1) as H1.
+  destruct (negb (valid_key key)); [exact I|].
+  destruct (pop d1) as [[elem d2]|] eqn:P2; [|exact I]. pose proof (dI_pop _ _ _ _ _ H1 P2) as H2.
+  destruct elem; try exact I; try (eapply remove_seq_I; eassumption).
+  (* Map: the entry is dropped first *)
+  destruct (get_map (d_heap d2) l) as [[rc es]|] eqn:Gm; [|exact I]. apply get_map_hget in Gm.
+  destruct (map_index es key) as [i|]; [|unfold ok; cbn [res_I]; eexists; eassumption].
+  destruct (nth_error es i) as [[k v]|] eqn:N; [|exact I]. cbv zeta. unfold ok. cbn [res_I].
+  destruct (flat_remove_meq _ _ _ _ N) as (M & Hi & Hk & Hv & Hf).
+  assert (Vfl : Forall (valid (d_heap d2)) (flat_entries es)) by exact (wfh_children _ _ _ (dI_wfh _ _ _ _ H2) Gm).
+  pose proof (keys_prim_get _ _ _ (di_kp _ _ _ _ H2) Gm) as Kp. simpl in Kp.
+  assert (Vfl' : Forall (valid (d_heap d2)) (flat_entries (remove_nth i es))).
+  { rewrite Forall_forall in *. auto. }
+  destruct (rc =? 0) eqn:Z.
+  - pose proof (dI_edit _ _ _ _ l _ (CMap rc (remove_nth i es)) [] [] H2 Gm I I eq_refl (Hf Kp)) as Ed.
+    rewrite live_map, Z in Ed. cbn [negb app] in Ed. eapply dI0_intro. apply Ed; [auto|assumption|constructor].
+  - pose proof (dI_edit _ _ _ _ l _ (CMap rc (remove_nth i es)) [] [k; v] H2 Gm I I eq_refl (Hf Kp)) as Ed.
+    rewrite live_map, Z in Ed. cbn [negb app] in Ed. eapply dI0_intro. apply dI_remove.
+    eapply dI_E_meq; [apply dI_remove; apply Ed| |].
+    + cbn [cell_children]. rewrite app_nil_r. exact M.
+    + assumption.
+    + rewrite Forall_forall in Vfl. constructor; [auto|constructor; [auto|constructor]].
+    + apply meq_refl.
+    + auto.
+Qed.
+End RemoveSet.
+
+(* ---------- SETITEM ---------- *)
+Lemma clone_if_struct_false h it h' it' : clone_if_struct h it = Some (h', it', false) -> h' = h /\ it' = it.
+Proof.
+  unfold clone_if_struct. destruct it; try (intros Q; inv Q; split; reflexivity).
+  destruct (clone_struct clone_fuel h l (MaxClonableNumOfItems - 1)) as [[[? ?] ?]|]; discriminate.
+Qed.
+
+Lemma dI_cancel E A U d it : dI (it :: E) (it :: A) U d -> dI E A U d.
+Proof.
+  intros [[Hg W Vx Va] Hu Hk]. constructor; [|exact Hu|exact Hk]. inv Va. constructor; try assumption.
+  - apply (G_cancel _ _ _ _ it). eapply G_meq; try exact Hg; try apply meq_refl.
+    split; [intros l; repeat rewrite ?occ_app, ?occ_cons; lia|repeat rewrite ?zlen_app, ?zlen_cons'; lia].
+  - eapply Forall_valid_perm; [|exact Vx]. intros a; repeat (rewrite ?in_app_iff; simpl); tauto.
+Qed.
+
+(* Remove never touches a compound whose count is 0 *)
+Lemma ref_remove_wl_dead : forall fuel h refs w l c, hget h l = Some c -> cell_rc c = 0 ->
+  hget (fst (ref_remove_wl fuel h refs w)) l = Some c.
+Proof.
+  induction fuel as [|f IH]; intros h refs w l c E Z; simpl; [assumption|].
+  destruct w as [|it w]; [assumption|]. destruct (item_cloc it) as [l0|]; [|apply IH; assumption].
+  destruct (hget h l0) as [c0|] eqn:E0; [|apply IH; assumption].
+  destruct (cell_rc c0 =? 0) eqn:Q; [apply IH; assumption|].
+  assert (N : l0 <> l) by (intros ->; rewrite E in E0; inv E0; lia).
+  case_if; apply IH; try assumption; rewrite hget_hset_other by assumption; assumption.
+Qed.
+Lemma d_remove_dead d it l c : hget (d_heap d) l = Some c -> cell_rc c = 0 -> hget (d_heap (d_remove it d)) l = Some c.
+Proof.
+  intros E Z. unfold d_remove, ref_remove. destruct (item_cloc it); [|assumption].
+  pose proof (ref_remove_wl_dead (ref_fuel (d_heap d) [it]) (d_heap d) (d_refs d) [it] l c E Z) as K.
+  destruct (ref_remove_wl _ (d_heap d) (d_refs d) [it]). exact K.
+Qed.
+Lemma d_remove_children d it l c :
+  hget (d_heap d) l = Some c -> exists r, hget (d_heap (d_remove it d)) l = Some (cell_set_rc c r).
+Proof.
+  intros E. pose proof (ref_remove_rc_only (d_heap d) (d_refs d) it) as [_ Ro]. unfold d_remove.
+  destruct (ref_remove (d_heap d) (d_refs d) it). cbn [set_mem d_heap fst] in *. apply Ro. assumption.
+Qed.
+Lemma map_index_nth es k i : map_index es k = Some i -> exists k0 v, nth_error es i = Some (k0, v).
+Proof.
+  revert i. induction es as [|[k' v'] t IH]; intros i; simpl; [discriminate|]. case_if.
+  - intros Q; inv Q. simpl. eauto.
+  - destruct (map_index t k) as [j|]; [|discriminate]. intros Q; inv Q. simpl. apply IH. reflexivity.
+Qed.
+Lemma set_nth_meq i its old it : nth_error its i = Some old ->
+  meq (set_nth i its it ++ [old]) (its ++ [it]) /\ (forall a, In a (set_nth i its it) -> a = it \/ In a its).
+Proof.
+  intros N. split; [split|].
+  - intros l. pose proof (occ_set_nth l i its old it N). rewrite !occ_app. cbn [occ]. lia.
+  - rewrite !zlen_app, zlen_set_nth'. reflexivity.
+  - intros a. apply In_set_nth.
+Qed.
+
+Definition res_IL (Ex : list item) (r : option dres) : Prop := exists Lk, res_I (Lk ++ Ex) r.
+Lemma res_IL_intro Ex r : res_I Ex r -> res_IL Ex r.
+Proof. intros H. exists []. exact H. Qed.
+
+Section SetItem.
+Variable Ex : list item.
+
+(* the edit of a dead container: nothing to account *)
+Lemma dead_edit_I d U l c cf :
+  dI Ex [] U d -> hget (d_heap d) l = Some c -> cell_rc c = 0 -> is_comp c -> is_comp cf -> cell_rc cf = 0 -> cell_kp cf ->
+  Forall (valid (d_heap d)) (cell_children cf) ->
+  dI0 Ex (set_heap d (hset (d_heap d) l cf)).
+Proof.
+  intros H Ec Z C Cf Zf Kf V. pose proof (dI_edit _ _ _ _ l c cf [] [] H Ec C Cf) as Ed.
+  unfold live in Ed. rewrite Z in Ed. cbn [negb app] in Ed. eapply dI0_intro. apply Ed; auto; try congruence; try constructor; try reflexivity.
+Qed.
+
+Lemma setitem_seq_I key cloned d U l :
+  dI (cloned :: Ex) [] U d -> valid (d_heap d) cloned ->
+  res_IL Ex (do (rc, its) <- get_seq (d_heap d) l;
+             do i <- try_int key; do i <- to_i32 i;
+             if (i <? 0) || (zlen its <=? i) then throw_bytes (msg_out_of_range i) (d_remove cloned d)
+             else do old <- nth_error its (Z.to_nat i);
+                  let d := if rc =? 0 then d_remove cloned d else d_remove old d in
+                  do (rc', its') <- get_seq (d_heap d) l;
+                  ok (set_heap d (hset (d_heap d) l (CSeq rc' (set_nth (Z.to_nat i) its' cloned))))).
+Proof.
+  intros H Vcl. destruct (get_seq (d_heap d) l) as [[rc its]|] eqn:Gs; [|exists []; exact I]. pose proof (get_seq_hget _ _ _ _ Gs) as Gh.
+  destruct (try_int key); [|exists []; exact I]. destruct (to_i32 z) as [i|]; [|exists []; exact I].
+  pose proof (dI_remove _ _ _ _ H) as Hr.
+  case_if; [apply res_IL_intro; eapply throw_bytes_I; exact Hr|].
+  destruct (nth_error its (Z.to_nat i)) as [old|] eqn:N; [|exists []; exact I]. cbv zeta.
+  assert (Vits : Forall (valid (d_heap d)) its) by exact (wfh_children _ _ _ (dI_wfh _ _ _ _ H) Gh).
+  destruct (set_nth_meq _ _ _ cloned N) as (M & Si).
+  destruct (rc =? 0) eqn:Z.
+  - (* the container is not referenced: the value's count goes *)
+    assert (Z0 : rc = 0) by lia. subst rc.
+    pose proof (d_remove_dead d cloned l _ Gh eq_refl) as Gd. unfold get_seq. rewrite Gd.
+    apply res_IL_intro. unfold ok. cbn [res_I].
+    eapply (dead_edit_I _ _ l _ (CSeq 0 (set_nth (Z.to_nat i) its cloned)) Hr Gd); try reflexivity; try exact I.
+    cbn [cell_children]. apply Forall_set_nth.
+    + eapply Forall_valid_shape; [apply d_remove_shape|assumption].
+    + eapply valid_shape; [apply d_remove_shape|assumption].
+  - destruct (d_remove_children d old l _ Gh) as (r & Gd). unfold get_seq at 1. rewrite Gd. cbn [cell_set_rc].
+    unfold ok.
+    pose proof (dI_remove_then_edit (cloned :: Ex) U d l (CSeq rc its) old (CSeq r (set_nth (Z.to_nat i) its cloned)) [cloned] H Gh) as K.
+    rewrite live_seq, Z in K. specialize (K eq_refl I (nth_error_In _ _ N) _ Gd I I eq_refl).
+    cbn [cell_children] in K. specialize (K M).
+    assert (K' : dI (cloned :: Ex) (if live (cell_set_rc (CSeq rc its) r) then [cloned] else []) (old :: U)
+                    (set_heap (d_remove old d) (hset (d_heap (d_remove old d)) l (CSeq r (set_nth (Z.to_nat i) its cloned))))).
+    { apply K; [apply Forall_set_nth; assumption|constructor; [assumption|constructor]]. }
+    destruct (live (cell_set_rc (CSeq rc its) r)).
+    + apply res_IL_intro. cbn [res_I]. eapply dI0_intro. apply (dI_cancel _ _ _ _ cloned). exact K'.
+    + (* the container died while the old element was un-counted: the value's count stays (over-count) *)
+      exists [cloned]. cbn [res_I app]. eapply dI0_intro. exact K'.
+Qed.
+End SetItem.
+
+Lemma map_add_valid h es k v :
+  Forall (valid h) (flat_entries es) -> valid h k -> valid h v -> Forall (valid h) (flat_entries (map_add es k v)).
+Proof.
+  induction es as [|[k' v'] t IH]; simpl; intros F Vk Vv; [repeat constructor; assumption|].
+  inv F. inv H2. case_if; simpl; repeat constructor; auto.
+Qed.
+Lemma map_add_kp es k v :
+  Forall (fun kv => item_cloc (fst kv) = None) es -> item_cloc k = None ->
+  Forall (fun kv => item_cloc (fst kv) = None) (map_add es k v).
+Proof.
+  induction es as [|[k' v'] t IH]; simpl; intros F Pk; [repeat constructor; assumption|].
+  inv F. case_if; constructor; auto.
+Qed.
+
+Section SetItem2.
+Variable Ex : list item.
+
+Lemma setitem_map_I key cloned d U l :
+  dI (cloned :: Ex) [] U d -> valid (d_heap d) cloned -> valid_key key = true ->
+  res_IL Ex (do (rc, es) <- get_map (d_heap d) l;
+             let d := if rc =? 0 then d_remove cloned d
+                      else match map_index es key with
+                           | Some i => match nth_error es i with Some (_, old) => d_remove old d | None => d end
+                           | None => d_add key d
+                           end in
+             do (rc', es') <- get_map (d_heap d) l;
+             ok (set_heap d (hset (d_heap d) l (CMap rc' (map_add es' key cloned))))).
+Proof.
+  intros H Vcl Vk. pose proof (valid_key_prim _ Vk) as Pk.
+  destruct (get_map (d_heap d) l) as [[rc es]|] eqn:Gm; [|exists []; exact I]. pose proof (get_map_hget _ _ _ _ Gm) as Gh.
+  cbv zeta.
+  assert (Vfl : Forall (valid (d_heap d)) (flat_entries es)) by exact (wfh_children _ _ _ (dI_wfh _ _ _ _ H) Gh).
+  pose proof (keys_prim_get _ _ _ (di_kp _ _ _ _ H) Gh) as Kp. simpl in Kp.
+  destruct (rc =? 0) eqn:Z.
+  - assert (Z0 : rc = 0) by lia. subst rc. pose proof (dI_remove _ _ _ _ H) as Hr.
+    pose proof (d_remove_dead d cloned l _ Gh eq_refl) as Gd. unfold get_map. rewrite Gd.
+    apply res_IL_intro. unfold ok. cbn [res_I].
+    eapply (dead_edit_I _ _ _ l _ (CMap 0 (map_add es key cloned)) Hr Gd); try reflexivity; try exact I.
+    + simpl. apply map_add_kp; assumption.
+    + cbn [cell_children]. apply map_add_valid.
+      * eapply Forall_valid_shape; [apply d_remove_shape|assumption].
+      * apply valid_prim. assumption.
+      * eapply valid_shape; [apply d_remove_shape|assumption].
+  - destruct (map_index es key) as [i|] eqn:Mi.
+    + (* the key exists: the old value is un-counted, then replaced *)
+      destruct (map_index_nth _ _ _ Mi) as (k0 & old & N). rewrite N.
+      destruct (map_add_found es key cloned i k0 old Mi N) as (Ho & Hl & Hi & Hin & Hf).
+      destruct (d_remove_children d old l _ Gh) as (r & Gd). unfold get_map at 1. rewrite Gd. cbn [cell_set_rc]. unfold ok.
+      pose proof (dI_remove_then_edit (cloned :: Ex) U d l (CMap rc es) old (CMap r (map_add es key cloned)) [cloned] H Gh) as K.
+      rewrite live_map, Z in K. cbn [cell_children] in K. specialize (K eq_refl I Hin _ Gd I).
+      assert (K' : dI (cloned :: Ex) (if live (cell_set_rc (CMap rc es) r) then [cloned] else []) (old :: U)
+                      (set_heap (d_remove old d) (hset (d_heap (d_remove old d)) l (CMap r (map_add es key cloned))))).
+      { apply K; try reflexivity.
+        - simpl. apply map_add_kp; assumption.
+        - split; [intros x; specialize (Ho x); rewrite !occ_app; cbn [occ]; lia|rewrite !zlen_app, !zlen_cons', zlen_nil; lia].
+        - apply map_add_valid; [assumption|apply valid_prim; assumption|assumption].
+        - constructor; [assumption|constructor]. }
+      destruct (live (cell_set_rc (CMap rc es) r)).
+      * apply res_IL_intro. cbn [res_I]. eapply dI0_intro. apply (dI_cancel _ _ _ _ cloned). exact K'.
+      * exists [cloned]. cbn [res_I app]. eapply dI0_intro. exact K'.
+    + (* a new key: the key is counted (Add), the entry appended *)
+      assert (Ha : dI (key :: cloned :: Ex) [] U (d_add key d)).
+      { apply dI_hold_added; [exact H|apply valid_prim; assumption]. }
+      assert (Eh : d_heap (d_add key d) = d_heap d).
+      { unfold d_add, ref_add. rewrite Pk. reflexivity. }
+      unfold get_map. rewrite Eh, Gh. apply res_IL_intro. unfold ok. cbn [res_I].
+      rewrite (map_add_new _ _ _ Mi).
+      pose proof (dI_edit _ _ _ _ l (CMap rc es) (CMap rc (es ++ [(key, cloned)])) [key; cloned] [] Ha) as Ed.
+      rewrite Eh in Ed. specialize (Ed Gh I I eq_refl). rewrite live_map, Z in Ed. cbn [negb app cell_children] in Ed.
+      eapply dI0_intro. apply (dI_cancel _ _ _ _ cloned). apply (dI_cancel _ _ _ _ key).
+      eapply dI_rearr; [apply Ed| | | | | | |]; try reflexivity; try apply meq_refl; try tauto.
+      * simpl. apply Forall_app; split; [assumption|constructor; [assumption|constructor]].
+      * rewrite flat_entries_app, app_nil_r. apply meq_refl.
+      * rewrite flat_entries_app. apply Forall_app; split; [assumption|].
+        simpl. constructor; [apply valid_prim; assumption|constructor; [assumption|constructor]].
+      * constructor.
+      * intros a Hin. left. exact Hin.
+Qed.
+
+Lemma setitem_buf_I key cloned d U l :
+  dI (cloned :: Ex) [] U d ->
+  res_IL Ex (let d := d_remove cloned d in
+             do bs <- get_buf (d_heap d) l;
+             do i <- try_int key; do i <- to_i32 i;
+             if (i <? 0) || (zlen bs <=? i) then throw_bytes (msg_out_of_range i) d
+             else do b <- try_int cloned; do b <- to_i32 b;
+                  if (b <? -128) || (255 <? b) then None
+                  else ok (set_heap d (hset (d_heap d) l (CBuf (set_nth (Z.to_nat i) bs (b mod 256)))))).
+Proof.
+  intros H. pose proof (dI_remove _ _ _ _ H) as Hr. cbv zeta. apply res_IL_intro.
+  destruct (get_buf (d_heap (d_remove cloned d)) l) as [bs|] eqn:Gb; [|exact I].
+  destruct (try_int key); [|exact I]. destruct (to_i32 z); [|exact I].
+  case_if; [eapply throw_bytes_I; exact Hr|].
+  destruct (try_int cloned); [|exact I]. destruct (to_i32 z1); [|exact I]. case_if; [exact I|].
+  unfold ok. cbn [res_I]. eapply dI0_intro. eapply dI_set_buf; eassumption.
+Qed.
+
+Lemma op_setitem_I d : dI0 Ex d -> res_IL Ex (op_setitem d).
+Proof.
+  intros [U H]. unfold op_setitem.
+  destruct (pop_noref d) as [[itm d1]|] eqn:P1; [|exists []; exact I]. pose proof (dI_pop_noref _ _ _ _ _ _ H P1) as H1.
+  assert (Vitm : valid (d_heap d1) itm) by (eapply dI_valid_E; [exact H1|simpl; tauto]).
+  destruct (clone_if_struct (d_heap d1) itm) as [[[h cloned] b]|] eqn:C; [|exists []; exact I].
+  destruct (dI_clone _ _ _ _ _ _ _ _ H1 Vitm C) as [H2 Vcl]. cbv zeta.
+  (* after the clone bookkeeping the value is held counted *)
+  assert (HA : exists UA dA, (if b then d_add cloned (d_remove itm (set_heap d1 h)) else set_heap d1 h) = dA /\
+                             dI (cloned :: Ex) [] UA dA /\ valid (d_heap dA) cloned).
+  { destruct b.
+    - eexists _, _. split; [reflexivity|]. split.
+      + apply dI_hold_added; [apply dI_remove; exact H2|]. eapply valid_shape; [apply d_remove_shape|exact Vcl].
+      + eapply valid_shape; [apply d_add_shape|]. eapply valid_shape; [apply d_remove_shape|exact Vcl].
+    - destruct (clone_if_struct_false _ _ _ _ C) as [-> ->]. eexists _, _. split; [reflexivity|]. split; [exact H2|exact Vcl]. }
+  destruct HA as (UA & dA & -> & HA & VA).
+  destruct (pop dA) as [[key d2]|] eqn:P2; [|exists []; exact I]. pose proof (dI_pop _ _ _ _ _ HA P2) as H3.
+  destruct (valid_key key) eqn:Vk; cbn [negb]; [|exists []; exact I].
+  destruct (pop d2) as [[obj d3]|] eqn:P3; [|exists []; exact I]. pose proof (dI_pop _ _ _ _ _ H3 P3) as H4.
+  assert (V3 : valid (d_heap d3) cloned).
+  { eapply dI_valid_E; [exact H4|simpl; tauto]. }
+  destruct obj; try (exists []; exact I).
+  - eapply setitem_buf_I; exact H4.
+  - eapply setitem_seq_I; eassumption.
+  - eapply setitem_seq_I; eassumption.
+  - eapply setitem_map_I; eassumption.
+Qed.
+End SetItem2.
+
+(* ================= all data instructions ================= *)
+Definition dres_IL (E : list item) (r : dres) : Prop := exists Lk, dres_I (Lk ++ E) r.
+
+Lemma res_dres_L E e op p d : res_IL E (exec_data_opt e op p d) -> dres_IL E (exec_data e op p d).
+Proof. intros [Lk H]. exists Lk. apply res_dres. exact H. Qed.
+
+Theorem exec_data_IL e op p d E : nonneg_bytes p -> dI0 E d -> dres_IL E (exec_data e op p d).
+Proof.
+  intros NN HI. destruct (is_compound_op op) eqn:C.
+  - apply res_dres_L. destruct op; try discriminate C; cbn [exec_data_opt].
+    + apply res_IL_intro. apply op_packmap_I; assumption.
+    + apply res_IL_intro. apply op_pack_I; assumption.
+    + apply res_IL_intro. apply op_pack_I; assumption.
+    + apply res_IL_intro. apply op_unpack_I; assumption.
+    + apply res_IL_intro. apply new_empty_I; try assumption; try reflexivity; try exact I.
+    + apply res_IL_intro. apply new_seq_I; assumption.
+    + apply res_IL_intro. destruct (param0 p); [apply new_seq_I; assumption|exact I].
+    + apply res_IL_intro. apply new_empty_I; try assumption; try reflexivity; try exact I.
+    + apply res_IL_intro. apply new_seq_I; assumption.
+    + apply res_IL_intro. apply new_empty_I; try assumption; try reflexivity; try exact I. constructor.
+    + apply res_IL_intro. apply op_size_I; assumption.
+    + apply res_IL_intro. apply op_haskey_I; assumption.
+    + apply res_IL_intro. apply op_keys_I; assumption.
+    + apply res_IL_intro. apply op_values_I; assumption.
+    + apply res_IL_intro. apply op_pickitem_I; assumption.
+    + apply res_IL_intro. apply op_append_I; assumption.
+    + apply op_setitem_I; assumption.
+    + apply res_IL_intro. apply op_reverseitems_I; assumption.
+    + apply res_IL_intro. apply op_remove_I; assumption.
+    + apply res_IL_intro. apply op_clearitems_I; assumption.
+    + apply res_IL_intro. apply op_popitem_I; assumption.
+    + apply res_IL_intro. destruct (param0 p); [apply op_convert_I; assumption|exact I].
+  - exists []. apply exec_data_I_basic; assumption.
+Qed.
